@@ -108,6 +108,8 @@ class Report:
             "obligations": n_ob - len(known),
             "discharged": len(held),
             "known_findings": len(known),
+            "programs": max(len(self.functions), 1),
+            "disagreements_checked": len(seen) + len(known),
             "checker_cmd": self.checker_cmd,
             "trusted_base": self.trusted,
             "explanation": self.explanation,
